@@ -17,5 +17,5 @@ for l in open('out.jsonl'):
     elif r.get('stuck'):
         s='STUCK: '+r['stuck'][:150]; c[s]+=1; ex.setdefault(s,(r['run'],''))
 print('runs',n,'nontrivial',nt,'avg steps',steps//max(n,1))
-for s,k in c.most_common(): print(k,s,'| run',ex[s][0],'|',ex[s][1][:300])
+for s,k in c.most_common(int(__import__("os").environ.get("TOP","14"))): print(k,s,'| run',ex[s][0],'|',ex[s][1][:300])
 PY
